@@ -9,7 +9,7 @@
      arrivals/admitted/ended = writers in the order of their first critical section in writer(),
                                of their admission, of the end of their transaction (ghost) *)
 From DV Require Import Base.Prelude Model.VersM Model.WritersM.
-From DV Require Import Proofs.VersInv Proofs.VersThms Proofs.WritersInv Proofs.WritersSerial Proofs.WritersThms.
+From DV Require Import Proofs.VersInv Proofs.VersThms Proofs.WritersInv Proofs.WritersSerial Proofs.WritersNoFail Proofs.WritersThms.
 Import VersM WritersM.
 
 (* at most one write transaction is open, and _write_txn says whose it is *)
@@ -112,6 +112,22 @@ Theorem commit_never_fails : forall s t id c,
              hist z' = hist (vz s) ++ [mkV id c] /\ last_opt (versions z') = Some (mkV id c).
 Proof. exact T_commit_never_fails. Qed.
 Print Assumptions commit_never_fails.
+
+(* no assert (`assert self._write_txn == txn`, `assert len(self._versions) > 0`), deque index or
+   set.remove inside any critical section ever fails, under any schedule *)
+Theorem no_failure : forall s, Reachable s -> failed s = None.
+Proof. exact T_no_failure. Qed.
+Print Assumptions no_failure.
+
+(* arrival, admission and end orders only ever grow at the tail (nobody is inserted in front of a
+   waiting writer: with `fifo`, a waiter's distance to admission never increases) *)
+Theorem orders_append_only : forall s t,
+  Reachable s -> enabled s t = true ->
+  (arrivals (step s t) = arrivals s \/ arrivals (step s t) = arrivals s ++ [t]) /\
+  (admitted (step s t) = admitted s \/ admitted (step s t) = admitted s ++ [t]) /\
+  (ended (step s t) = ended s \/ ended (step s t) = ended s ++ [t]).
+Proof. exact T_orders_append_only. Qed.
+Print Assumptions orders_append_only.
 
 (* readers never wait for a write transaction: the lock is only ever held by a thread inside a
    critical section (never across Event.wait, version set-up or a transaction body), that thread can
